@@ -95,7 +95,18 @@ def rule_find(model, rep):
     s2 = site("TOTP.normalize_token")
     rep.check(has_if(fn, "len(token) != digits", ["raise MalformedTokenError('Token must have exactly %d digits' % digits)"]), R, s2, "len(token) != digits -> MalformedTokenError",
               "a code of the wrong length is malformed", witness="a 5-digit code is compared (and maybe zero-extended) instead of refused")
-    rep.check(has_if(fn, "not token.isdigit()", ["raise MalformedTokenError('Token must contain only the digits 0-9')"]), R, s2, "non-digits -> MalformedTokenError", "non-digit characters are malformed")
+    # content check: only the ten ASCII digits (str.isdigit() alone also accepts Arabic-Indic, full-width, superscript ... digits)
+    dig = [n for n in walk_no_nested(fn) if isinstance(n, ast.If) and "isdigit()" in ast.unparse(n.test) and n.body and isinstance(n.body[-1], ast.Raise) and "MalformedTokenError" in ast.unparse(n.body[-1])]
+    rep.check(len(dig) == 1, R, s2, "non-digits -> MalformedTokenError", "non-digit characters are malformed")
+    if dig:
+        tt = ast.unparse(dig[0].test)
+        rep.check("isascii()" in tt and tt.startswith("not "), R, s2 + " ascii digits", tt, "the digit test is restricted to ASCII (`isascii() and isdigit()`)",
+                  witness="match('\u0661\u0662\u0663\u0664\u0665\u0666', t) is compared against the window and answered InvalidTokenError; the documented result for a non 0-9 token is MalformedTokenError")
+    neg = [n for n in walk_no_nested(fn) if isinstance(n, ast.If) and ast.unparse(n.test) in ("token < 0", "0 > token") and n.body and isinstance(n.body[-1], ast.Raise) and "MalformedTokenError" in ast.unparse(n.body[-1])]
+    intif = find_if(fn, "isinstance(token, int)")
+    rep.check(bool(neg) and bool(intif) and any(x is neg[0] for x in intif[0].body), R, s2 + " negative int", "if token < 0: raise MalformedTokenError  # in the int branch",
+              "a negative integer is malformed (its '-' sign would count as a digit position)",
+              witness="match(-12345, t) formats to '-12345' (6 characters), passes the length check and is answered InvalidTokenError instead of MalformedTokenError")
     rep.check(has_stmt(fn, "token = '%0*d' % (digits, token)"), R, s2, "int tokens zero-padded to digits", "integer codes are zero-padded to the digit count")
     rep.check(has_stmt(fn, "token = _clean_re.sub('', token)"), R, s2, "separators removed", "blanks and dashes in typed codes are ignored")
     rep.check(has_stmt(fn, "digits = self_or_cls.digits"), R, s2, "digits from object/class", "digit count from the object")
